@@ -23,6 +23,11 @@
 (*       executing the turn without look-ahead raises: none lost in a      *)
 (*       rewind, none raised twice (part of LookAheadIsInvisible); a       *)
 (*       handler leaves nothing pending; an error stops the story (C13)    *)
+(*   EvalLeavesTheStoryAlone  evaluating any function of the program from  *)
+(*       the host, in any reachable state, leaves the current flow (call   *)
+(*       stack, output, choices, status, last position) and the other      *)
+(*       flows as they were; only globals, counts and sequence counters    *)
+(*       may have moved (C16)                                              *)
 (*   SaveLoadIdentity  save, any one call, load is the state at the save   *)
 (*       (C02); ResetIsInitial (C17); RefusedIsNoOp (C09): these hold by   *)
 (*       the construction of InkHost and are asserted so that a change of  *)
@@ -110,6 +115,22 @@ SaveLoadIdentity ==
          r == H!Load(t, "mc").h IN
      \* (messages are not part of a save: those pending at the load stay)
      r.m = [h.m EXCEPT !.err = t.m.err, !.warns = t.m.warns] /\ r.cur = h.cur /\ r.others = h.others
+
+\* the host evaluates function f with arguments 1, 2, ..: begin, continue until it cannot, take the result, end
+RECURSIVE EvalRun(_, _)
+EvalRun(hh, fuel) == IF fuel = 0 \/ ~H!CanContinue(hh) THEN hh ELSE EvalRun(Cont(hh), fuel - 1)
+Functions == {k \in DOMAIN P.knots : P.knots[k].kind = "function"}
+EvalLeavesTheStoryAlone ==
+  (h.m.err = "" /\ ~h.async) =>
+    \A f \in Functions :
+      LET args == [i \in 1..Len(P.knots[f].params) |-> S!I(i)]
+          \* (evaluated without a handler, so that an error raised inside the function stays visible: a function that
+          \* fails forces the story to its end - that is the engine's rule for errors, not a disturbance by the call)
+          b == H!EvalBegin([h EXCEPT !.handler = FALSE], f, args)
+          r == [H!EvalEnd(EvalRun(b.h, 40), b.saved) EXCEPT !.handler = h.handler] IN
+      (b.res = "ok" /\ r.m.err = "") =>
+        /\ H!FlowOf(r.m) = H!FlowOf(h.m)
+        /\ r.others = h.others /\ r.cur = h.cur /\ r.slots = h.slots
 
 ResetIsInitial == LET r == H!Reset(h).h IN r.m = S!Start /\ r.cur = H!DefaultFlow /\ r.others = <<>> /\ r.obs = h.obs /\ r.handler = h.handler
 
